@@ -49,6 +49,39 @@ theorem flush_delivers_all_pending {c : Cfg} {s s' : St} {rs : List (Nat × List
   simp only [List.mem_append, List.mem_reverse, List.mem_map]
   exact Or.inl ⟨b, hb, rfl⟩
 
+/-- **same_wave_same_call** — between two idle points (`phase = exec`): two invocations of one Batch
+    resolver that were registered in the same exec phase (same wave tag `u`) are never split: if one
+    of them was passed to the batch function, the other was passed in that very call. With `depOK`
+    (resolver calls below a promise happen in the exec phase right after the wave that fulfilled it
+    — checked by the acceptor on every observed execution) this is the coalescing of *nested* batches:
+    the invocations below all promises fulfilled by one wave go to one call of the next. -/
+theorem same_wave_same_call {c : Cfg} {s : St} (h : Reachable c s) (hp : s.phase = .exec) {p1 p2 k u : Nat}
+    (h1 : (p1, k, u) ∈ s.regWave) (h2 : (p2, k, u) ∈ s.regWave) {cl : Call} (hcl : cl ∈ s.calls)
+    (hin : p1 ∈ cl.dests) : p2 ∈ cl.dests := by
+  have i4 := h.inv4
+  obtain ⟨hw1, ht1⟩ := i4.callTag cl hcl
+  have e1 := eq_of_nodup_map (fun x : Nat × Nat × Nat => x.1) s.regWave i4.rwNodup (ht1 p1 hin) h1 rfl
+  have hk : cl.key = k := by simpa using congrArg (fun x : Nat × Nat × Nat => x.2.1) e1
+  have hu : cl.wave - 1 = u := by simpa using congrArg (fun x : Nat × Nat × Nat => x.2.2) e1
+  rcases i4.covered (by simp [hp]) _ h2 with hq | ⟨cl2, hcl2, hin2⟩
+  · -- still pending: impossible, it would carry the current wave tag
+    exfalso
+    simp only [qIds, List.mem_flatMap] at hq
+    obtain ⟨b, hb, hpb⟩ := hq
+    have := i4.pend b hb p2 hpb
+    have e2 := eq_of_nodup_map (fun x : Nat × Nat × Nat => x.1) s.regWave i4.rwNodup this h2 rfl
+    have hu2 : pendTag s = u := by simpa using congrArg (fun x : Nat × Nat × Nat => x.2.2) e2
+    have hle := h.inv2.callWave cl hcl
+    simp [pendTag, hp] at hu2
+    omega
+  · obtain ⟨hw2, ht2⟩ := i4.callTag cl2 hcl2
+    have e2 := eq_of_nodup_map (fun x : Nat × Nat × Nat => x.1) s.regWave i4.rwNodup (ht2 p2 hin2) h2 rfl
+    have hk2 : cl2.key = k := by simpa using congrArg (fun x : Nat × Nat × Nat => x.2.1) e2
+    have hu2 : cl2.wave - 1 = u := by simpa using congrArg (fun x : Nat × Nat × Nat => x.2.2) e2
+    have : cl2 = cl := one_call_per_wave h hcl2 hcl (by omega) (by rw [hk, hk2])
+    rw [← this]; exact hin2
+
+
 /-- Non-vacuity of the batching theorems: two invocations of resolver 7 and one of resolver 9 are
     flushed in one wave, one call each, positions kept. -/
 example :
